@@ -51,6 +51,15 @@ class _Tab:
         self.kind, self.row = kind, row
 
 
+def _canon_process(ctx, fn):
+    """process(data): the working copy and the chunk length are identified by what they are computed from and renamed back to the names the rules use"""
+    from .common import recover_names
+    D = fn.params()[1]
+    return recover_names(ctx, fn, [
+        ("payload", "def", lambda v: isinstance(v, ast.Call) and norm.text(v.func) in ("array", "bytearray") and any(isinstance(x, ast.Name) and x.id == D for a_ in v.args for x in ast.walk(a_))),
+        ("dlen", "def", lambda v: isinstance(v, ast.Call) and norm.text(v.func) == "len" and len(v.args) == 1 and norm.text(v.args[0]) == D)])
+
+
 def _interp_process(fn, tables, shifted_T):
     """Abstractly interpret a masker's process(data) over the grid (entry pointer p in 0..63) x (x in 0..63), where x is the loop
     index k inside the loop and the chunk length after it. Supported: straight-line assignments of int expressions / table aliases,
@@ -192,7 +201,7 @@ def rule_python_maskers(ctx):
     # --- XorMaskerSimple -------------------------------------------------------------------
     c = m.classes.get("XorMaskerSimple")
     ctx.require(c is not None, "XorMaskerSimple not found")
-    fn = c.methods["process"]
+    fn = _canon_process(ctx, c.methods["process"])
     ctx.analysed(fn)
     msk = [s for s in walk_no_defs(c.methods["__init__"].node) if isinstance(s, ast.Assign) and is_self_attr(s.targets[0], "_msk")]
     ctx.ob("XorMaskerSimple: key table is the 4 mask octets in order", len(msk) == 1 and norm.text(msk[0].value).replace('"', "'") in ("array('B', mask)", "bytes(mask)", "bytearray(mask)", "mask"), "changed", c.loc())
@@ -229,7 +238,7 @@ def rule_python_maskers(ctx):
     except AnalysisError as e:
         raise AnalysisError(f"[C15.1-python-xor-index] XorMaskerShifted1.__init__ outside the modelled subset: {e}")
     ctx.ob("XorMaskerShifted1: four shifted tables of four mask octets", sorted(table) == [0, 1, 2, 3], f"rows {sorted(table)}", init.loc())
-    proc = c.methods["process"]
+    proc = _canon_process(ctx, c.methods["process"])
     if sorted(table) == [0, 1, 2, 3]:
         T = np.stack([table[r] for r in range(4)])
         res = _interp_process(proc, {"self._mskarray": "shifted"}, T)
